@@ -48,6 +48,18 @@ pub(crate) fn any_sorted(n: usize) -> [Ent; MAXN] {
     es
 }
 
+/// es[i] without a symbolic index (CBMC 6.11 returned inconsistent values for symbolic-index reads of arrays of
+/// structs with mixed field sizes; observed twice, see DESIGN.md §9).
+pub(crate) fn pick(es: &[Ent; MAXN], i: usize) -> Ent {
+    if i == 0 {
+        es[0]
+    } else if i == 1 {
+        es[1]
+    } else {
+        es[2]
+    }
+}
+
 pub(crate) fn entry_offset(es: &[Ent; MAXN], i: usize) -> usize {
     let mut off = 0;
     let mut j = 0;
@@ -155,16 +167,162 @@ fn same(a: &[u8], b: &[u8]) -> bool {
     true
 }
 
+/// The block built by the real BlockWriter, handed to the cursor through a typed constructor (buffer and offset
+/// table are the writer's own vectors; footer parsing by Block::new is the subject of c01_block_new_*).
+pub(crate) fn typed_block(es: &[Ent; MAXN], n: usize, interval: usize) -> Block {
+    let mut b = BlockWriter::builder();
+    b.index_key_interval(NonZeroUsize::new(interval).unwrap());
+    let mut bw = b.build();
+    let mut i = 0;
+    while i < MAXN {
+        if i < n {
+            bw.insert(es[i].key(), es[i].val());
+        }
+        i += 1;
+    }
+    let (buffer, index_offsets, payload_size) = crate::block_writer::verif_h::finish_parts(bw);
+    Block { compression_type: CompressionType::None, buffer, payload_size, index_offsets }
+}
+
+/// Independent reference encoder of one block (format text of C09): varint-framed entries, u64 BE offsets of every
+/// `interval`-th entry starting with 0, u32 BE count. Arrays only; shares no code with the crate.
+pub(crate) struct RefBlock {
+    pub bytes: [u8; MAXBLOCK],
+    pub len: usize,
+    pub payload: usize,
+    pub offsets: [u64; MAXN],
+    pub noffsets: usize,
+}
+
+pub(crate) fn ref_block(es: &[Ent; MAXN], n: usize, interval: usize) -> RefBlock {
+    let mut r = RefBlock { bytes: [0; MAXBLOCK], len: 0, payload: 0, offsets: [0; MAXN], noffsets: 1 };
+    let mut pos = 0usize;
+    let mut i = 0;
+    while i < MAXN {
+        if i < n {
+            if i > 0 && i % interval == 0 {
+                r.offsets[r.noffsets] = pos as u64;
+                r.noffsets += 1;
+            }
+            r.bytes[pos] = es[i].klen as u8; // lengths < 128: one-byte varints
+            r.bytes[pos + 1] = es[i].vlen as u8;
+            pos += 2;
+            let mut j = 0;
+            while j < 2 {
+                if j < es[i].klen {
+                    r.bytes[pos] = es[i].k[j];
+                    pos += 1;
+                }
+                j += 1;
+            }
+            let mut j = 0;
+            while j < 2 {
+                if j < es[i].vlen {
+                    r.bytes[pos] = es[i].v[j];
+                    pos += 1;
+                }
+                j += 1;
+            }
+        }
+        i += 1;
+    }
+    r.payload = pos;
+    let mut t = 0;
+    while t < MAXN {
+        if t < r.noffsets {
+            let be = r.offsets[t].to_be_bytes();
+            let mut j = 0;
+            while j < 8 {
+                r.bytes[pos + j] = be[j];
+                j += 1;
+            }
+            pos += 8;
+        }
+        t += 1;
+    }
+    let c = (r.noffsets as u32).to_be_bytes();
+    let mut j = 0;
+    while j < 4 {
+        r.bytes[pos + j] = c[j];
+        j += 1;
+    }
+    r.len = pos + 4;
+    r
+}
+
+/// A Block over the reference encoding, through a typed constructor (one copy of concrete size).
+pub(crate) fn ref_typed_block(es: &[Ent; MAXN], n: usize, interval: usize) -> Block {
+    let r = ref_block(es, n, interval);
+    let buffer = r.bytes.to_vec();
+    let mut index_offsets = Vec::with_capacity(MAXN);
+    let mut t = 0;
+    while t < MAXN {
+        if t < r.noffsets {
+            index_offsets.push(r.offsets[t]);
+        }
+        t += 1;
+    }
+    Block { compression_type: CompressionType::None, buffer, payload_size: r.payload, index_offsets }
+}
+
 /// AC ⊑ BlockCursor for one operation: from every abstract pre-state, result(real) = result(AC) and
 /// alpha(real') = AC'. Also the specification of C02 (in-block ceiling/floor) and C03 (in-block moves).
-fn block_op_check(op: u8, interval: usize) {
-    let n: usize = kani::any();
-    kani::assume(n <= MAXN);
-    let es = any_sorted(n);
+fn block_op_check(op: u8, interval: usize, nmin: usize, nmax: usize) {
+    let f = block_op_check_full(op, interval, nmin, nmax, None, true, None);
+    covers_full(&f, nmin, nmax);
+}
+
+pub(crate) struct BlockFacts {
+    n: usize,
+    p: Pos,
+    qr: u32,
+    qlen: usize,
+    r0: u32,
+    r1: u32,
+    r2: u32,
+    k0len: usize,
+    ext: bool,
+}
+
+fn covers_basic(f: &BlockFacts, nmax: usize) {
+    kani::cover!(f.n == nmax && f.p == Some(nmax));
+    kani::cover!(f.n == nmax && f.p.is_none());
+    kani::cover!(f.n >= 1 && f.qr == f.r0);
+    kani::cover!(f.n >= 1 && f.qlen == 0);
+}
+
+fn covers_full(f: &BlockFacts, nmin: usize, nmax: usize) {
+    covers_basic(f, nmax);
+    kani::cover!(f.n == nmin);
+    kani::cover!(f.n >= 1 && f.qr < f.r0);
+    if nmax == MAXN {
+        kani::cover!(f.n == MAXN && f.qr > f.r1 && f.qr < f.r2);
+        kani::cover!(f.n == MAXN && f.ext);
+    }
+    kani::cover!(f.n >= 2 && f.k0len == 0);
+}
+
+fn block_op_check_full(op: u8, interval: usize, nmin: usize, nmax: usize, vfix: Option<usize>, sym_pos: bool,
+                       lens: Option<([usize; MAXN], [usize; MAXN])>) -> BlockFacts {
+    let n: usize = if nmin == nmax { nmin } else { kani::any() };
+    kani::assume(n >= nmin && n <= nmax);
+    let mut es = any_sorted(n);
+    if let Some(v) = vfix {
+        kani::assume(es[0].vlen == v && es[1].vlen == v && es[2].vlen == v);
+    }
+    if let Some((kl, vl)) = lens {
+        let mut i = 0;
+        while i < MAXN {
+            kani::assume(es[i].klen == kl[i] && es[i].vlen == vl[i]);
+            es[i].klen = kl[i];
+            es[i].vlen = vl[i];
+            i += 1;
+        }
+    }
     let ranks = [rank(es[0].key()), rank(es[1].key()), rank(es[2].key())];
-    let block = real_block(&es, n, interval);
+    let block = ref_typed_block(&es, n, interval);
     let mut c = block.into_cursor();
-    let p = any_pos(n);
+    let p = if sym_pos { any_pos(n) } else { None };
     set_pos(&mut c, &es, p);
 
     let qlen: usize = kani::any();
@@ -177,8 +335,9 @@ fn block_op_check(op: u8, interval: usize) {
     match do_real(&mut c, op, q) {
         Some((k, v)) => match exp {
             Some(i) => {
-                assert!(same(k, es[i].key()), "wrong key returned");
-                assert!(same(v, es[i].val()), "wrong value returned");
+                let e = pick(&es, i);
+                assert!(same(k, e.key()), "wrong key returned");
+                assert!(same(v, e.val()), "wrong value returned");
             }
             None => panic!("returned an entry where the specification says None"),
         },
@@ -186,20 +345,8 @@ fn block_op_check(op: u8, interval: usize) {
     }
     assert!(alpha(&c, &es, n) == p2, "post-position differs from the model");
 
-    kani::cover!(n == 0);
-    kani::cover!(n == MAXN && p == Some(1));
-    kani::cover!(n == MAXN && p == Some(MAXN));
-    kani::cover!(n == MAXN && p.is_none());
-    if op == OP_GE || op == OP_LE {
-        kani::cover!(n == MAXN && qr < ranks[0]);
-        kani::cover!(n == MAXN && qr > ranks[2]);
-        kani::cover!(n == MAXN && qr == ranks[1]);
-        kani::cover!(n == MAXN && qr > ranks[1] && qr < ranks[2]);
-        kani::cover!(n == MAXN && qlen == 3 && qb[0] == es[1].k[0] && es[1].klen == 2 && qb[1] == es[1].k[1]);
-        kani::cover!(n >= 1 && qlen == 0);
-        kani::cover!(n >= 2 && es[0].klen == 0);
-    }
     mem::forget(c);
+    BlockFacts { n, p, qr, qlen, r0: ranks[0], r1: ranks[1], r2: ranks[2], k0len: es[0].klen, ext: qlen == 3 && qb[0] == es[1].k[0] && es[1].klen == 2 && qb[1] == es[1].k[1] }
 }
 
 macro_rules! block_op_harness {
@@ -207,10 +354,28 @@ macro_rules! block_op_harness {
         #[kani::proof]
         #[kani::unwind(10)]
         fn $name() {
-            block_op_check($op, $interval);
+            block_op_check($op, $interval, 3, 3);
         }
     };
 }
+
+macro_rules! block_op_harness_small {
+    ($name:ident, $op:expr, $interval:expr) => {
+        #[kani::proof]
+        #[kani::unwind(10)]
+        fn $name() {
+            block_op_check($op, $interval, 0, 2);
+        }
+    };
+}
+block_op_harness_small!(c02_block_ge_i1_small, OP_GE, 1);
+block_op_harness_small!(c02_block_le_i1_small, OP_LE, 1);
+block_op_harness_small!(c02_block_ge_i2_small, OP_GE, 2);
+block_op_harness_small!(c02_block_le_i2_small, OP_LE, 2);
+block_op_harness_small!(c03_block_next_i1_small, OP_NEXT, 1);
+block_op_harness_small!(c03_block_prev_i1_small, OP_PREV, 1);
+block_op_harness_small!(c03_block_first_i1_small, OP_FIRST, 1);
+block_op_harness_small!(c03_block_last_i1_small, OP_LAST, 1);
 
 block_op_harness!(c03_block_current_i2, OP_CURRENT, 2);
 block_op_harness!(c03_block_first_i1, OP_FIRST, 1);
@@ -236,10 +401,42 @@ block_op_harness!(c02_block_le_i8, OP_LE, 8);
 /// footer parsing) yields buffer = body, payload_size = sum of framed entries, index_offsets = the offsets
 /// of entries 0, interval, 2*interval, ...; entry_at(i-th offset) returns entry i and the next offset.
 fn block_new_check(interval: usize) {
-    let n: usize = kani::any();
+    block_new_check_cfg(interval, None, [0; MAXN], [0; MAXN])
+}
+
+/// nfix = Some(n): entry count and all lengths concrete (contents symbolic), so the block length is concrete:
+/// std's read_to_end over a symbolic-length source is out of the solver's reach (>20 GB).
+fn block_new_check_cfg(interval: usize, nfix: Option<usize>, klens: [usize; MAXN], vlens: [usize; MAXN]) {
+    let n: usize = match nfix {
+        Some(n) => n,
+        None => kani::any(),
+    };
     kani::assume(n <= MAXN);
-    let es = any_sorted(n);
-    let block = real_block(&es, n, interval);
+    let mut es = any_sorted(n);
+    if nfix.is_some() {
+        let mut i = 0;
+        while i < MAXN {
+            kani::assume(es[i].klen == klens[i] && es[i].vlen == vlens[i]);
+            es[i].klen = klens[i];
+            es[i].vlen = vlens[i];
+            i += 1;
+        }
+    }
+    let r = ref_block(&es, n, interval);
+    // `len ‖ block` in one fixed array, read through &[u8]
+    let mut file = [0u8; 8 + MAXBLOCK];
+    let lp = (r.len as u64).to_be_bytes();
+    file[..8].copy_from_slice(&lp);
+    file[8..].copy_from_slice(&r.bytes);
+    let mut src: &[u8] = &file[..8 + r.len];
+    let block = match Block::new(&mut src, CompressionType::None) {
+        Ok(b) => b,
+        Err(e) => {
+            mem::forget(e);
+            panic!("Block::new failed on a well-formed block");
+        }
+    };
+    assert!(src.is_empty(), "Block::new must consume exactly the length prefix and the block");
     let payload = entry_offset(&es, n);
     assert!(block.payload_size == payload);
     assert!(block.payload().len() == payload);
@@ -268,9 +465,19 @@ fn block_new_check(interval: usize) {
         i += 1;
     }
     assert!(block.entry_at(payload).is_none());
-    kani::cover!(n == 0);
-    kani::cover!(n == MAXN && es[0].klen == 0 && es[2].vlen == 2);
+    kani::cover!(n == 0 || nfix.is_some());
+    kani::cover!((n == MAXN && es[0].klen == 0 && es[2].vlen == 2) || nfix.is_some());
     mem::forget(block);
+}
+
+macro_rules! block_new_fixed {
+    ($name:ident, $interval:expr, $n:expr, $kl:expr, $vl:expr) => {
+        #[kani::proof]
+        #[kani::unwind(10)]
+        fn $name() {
+            block_new_check_cfg($interval, Some($n), $kl, $vl);
+        }
+    };
 }
 
 #[kani::proof]
@@ -297,7 +504,7 @@ fn c17_block_borrows() {
     let n: usize = kani::any();
     kani::assume(n >= 1 && n <= MAXN);
     let es = any_sorted(n);
-    let block = real_block(&es, n, 2);
+    let block = ref_typed_block(&es, n, 2);
     let mut c = block.into_cursor();
     let qlen: usize = kani::any();
     kani::assume(qlen <= 3);
@@ -315,3 +522,16 @@ fn c17_block_borrows() {
     assert!(sum <= 4 * 255);
     mem::forget(c);
 }
+
+
+macro_rules! block_op_fixed {
+    ($name:ident, $op:expr, $interval:expr, $n:expr, $kl:expr, $vl:expr) => {
+        #[kani::proof]
+        #[kani::unwind(10)]
+        fn $name() {
+            let f = block_op_check_full($op, $interval, $n, $n, None, true, Some(($kl, $vl)));
+            covers_basic(&f, $n);
+        }
+    };
+}
+include!("block_gen.rs");
